@@ -466,6 +466,75 @@ fn scopes(tier: Tier) -> Vec<Scope> {
     }
 }
 
+// ---- an equality that is not an equivalence -----------------------------------------------------
+
+/// Item type whose PartialEq is a legal but many-to-many relation: the value `WILD` equals
+/// everything (a pattern line matching any line); not transitive.
+#[derive(Clone, Copy, Debug)]
+pub struct Wild(pub u8);
+pub const WILD: u8 = 2;
+impl PartialEq for Wild {
+    fn eq(&self, o: &Wild) -> bool {
+        self.0 == o.0 || self.0 == WILD || o.0 == WILD
+    }
+}
+
+/// every valid script of (old, new) under the relation of `Wild`, each through all 8 compositions:
+/// output valid (Equal pairs related items) with the same cost
+fn wild_scripts(old: &[Wild], new: &[Wild], o: usize, n: usize, script: &mut Vec<DiffOp>, count: &mut u64) -> Result<(), String> {
+    let (nn, mm) = (old.len(), new.len());
+    if o == nn && n == mm {
+        *count += 1;
+        let (mut del, mut ins) = (0, 0);
+        for op in script.iter() {
+            match *op {
+                DiffOp::Delete { old_len, .. } => del += old_len,
+                DiffOp::Insert { new_len, .. } => ins += new_len,
+                _ => {}
+            }
+        }
+        for stack in 0..STACKS.len() {
+            let out = replay_stack(stack, script, old, new)?;
+            let st = validate_ops(&out, old, 0..nn, new, 0..mm, EXACT[stack]).map_err(|e| {
+                format!("{} over items whose equality is a many-to-many relation (value 2 equals everything): output is not a valid script: {} [output: {:?}]", STACKS[stack], e, out)
+            })?;
+            if st.deleted != del || st.inserted != ins {
+                return Err(format!(
+                    "{} over items whose equality is a many-to-many relation: input script deletes {} and inserts {} items, output deletes {} and inserts {} [output: {:?}]",
+                    STACKS[stack], del, ins, st.deleted, st.inserted, out
+                ));
+            }
+        }
+        return Ok(());
+    }
+    let mut l = 0;
+    while o + l < nn && n + l < mm && old[o + l] == new[n + l] {
+        l += 1;
+        script.push(DiffOp::Equal { old_index: o, new_index: n, len: l });
+        wild_scripts(old, new, o + l, n + l, script, count)?;
+        script.pop();
+    }
+    for l in 1..=(nn - o) {
+        script.push(DiffOp::Delete { old_index: o, old_len: l, new_index: n });
+        wild_scripts(old, new, o + l, n, script, count)?;
+        script.pop();
+    }
+    for l in 1..=(mm - n) {
+        script.push(DiffOp::Insert { old_index: o, new_index: n, new_len: l });
+        wild_scripts(old, new, o, n + l, script, count)?;
+        script.pop();
+    }
+    Ok(())
+}
+
+pub fn check_wild(old8: &[u8], new8: &[u8]) -> Result<u64, String> {
+    let old: Vec<Wild> = old8.iter().map(|&x| Wild(x)).collect();
+    let new: Vec<Wild> = new8.iter().map(|&x| Wild(x)).collect();
+    let mut count = 0;
+    wild_scripts(&old, &new, 0, 0, &mut vec![], &mut count).map_err(|e| format!("{} [script space of old={:?} new={:?} with 2 as wildcard]", e, old8, new8))?;
+    Ok(count)
+}
+
 pub fn run(cfg: &RunCfg) -> CheckReport {
     let mut rep = CheckReport::new(
         "model_checking",
@@ -526,6 +595,22 @@ pub fn run(cfg: &RunCfg) -> CheckReport {
         json!("every model trace is executed on the implementation (3 adapter stacks each); the model only generates inputs, the oracle inspects the implementation's output"),
     );
     rep.part("scripts", json!({"scopes": space.describe(), "stacks": STACKS, "history": "scripts of pairs with N+M <= 6 are also fed to a Replace<sink> that went through one of 3 scripts aborted by its sink at call j (j = 0..3) before"}), ex);
+    if !rep.has_violation() {
+        let wspace = PairSpace::new(vec![Scope::P { k: 3, n: cfg.tier.pick(4, 5) }]);
+        let ex = explore(cfg, wspace.nshards(), |shard, acc| {
+            wspace.for_each(shard, |old, new| {
+                match check_wild(old, new) {
+                    Ok(n) => {
+                        acc.count("scripts_under_the_wildcard_relation", n);
+                        acc.ok(old.contains(&WILD) || new.contains(&WILD), n, n ^ ((old.len() * 16 + new.len()) as u64));
+                    }
+                    Err(e) => acc.violation(|| (json!({"wild": true, "old": old, "new": new}), e)),
+                }
+                !acc.stop()
+            });
+        });
+        rep.part("many-to-many-equality", json!({"scopes": wspace.describe(), "relation": "item value 2 equals every item (not transitive)", "oracle": "valid script (Equal pairs related items) of equal cost through all 8 compositions; normal form not required"}), ex);
+    }
     if rep.has_violation() {
         return rep;
     }
@@ -623,6 +708,9 @@ pub fn replay(case: &Value) -> Result<String, String> {
     }
     let old = parse_seq(case, "old")?;
     let new = parse_seq(case, "new")?;
+    if case.get("wild").is_some() {
+        return check_wild(&old, &new).map(|n| format!("holds; {} scripts", n));
+    }
     let script = script_from_json(case.get("script").ok_or("no script")?)?;
     if old.len() + new.len() <= 6 {
         check_reuse_after_abort(&script, &old, &new)?;
